@@ -132,7 +132,7 @@ crd info chord describe -t "Caug" -s`,
 
 		noteString := tree.Degree.Degree.Value()
 		if a := tree.Degree.Accidental; a != nil {
-			noteString += a.Value()
+			noteString += op.NewAccidental(a.Value()).String()
 		}
 		root, err := note.ParseNote(noteString)
 		if err != nil {
